@@ -67,7 +67,7 @@ func itoa(i int) string { return strconv.Itoa(i) }
 
 // ---------------------------------------------------------------- documents for the RFC 6902 harnesses
 
-const nDocShapes = 19
+const nDocShapes = 21
 
 // docShape builds document shape i; leaves are symbolic.
 func docShape(i int, pfx string) *JV {
@@ -111,6 +111,14 @@ func docShape(i int, pfx string) *JV {
 		return jObj().with("q", litNum(pfx, 0)).with("b", litNum(pfx, 1)).with("z", litNum(pfx, 2)).with("a", litNum(pfx, 3)).with("m", litNum(pfx, 4)).with("c", litNum(pfx, 5))
 	case 17:
 		return jArr(litNum(pfx, 2), jObj().with("y", litNum(pfx, 0)).with("x", litNum(pfx, 3)), litNum(pfx, 5), litNum(pfx, 1))
+	case 19:
+		// containers under names that need ~0/~1 in a pointer (escaped ANCESTOR tokens)
+		return jObj().with("a~b", jObj().with("x", n(0))).with("c/d", jArr(n(1))).with("k", n(2))
+	case 20:
+		// the same, with the names spelled through JSON escapes in the document text
+		o := jObj().with("a~b", jObj().with("x", n(0))).with("c/d", jArr(n(1))).with("k", n(2))
+		o.KSp = [][]byte{[]byte("a" + "\\u007e" + "b"), []byte("c" + "\\/" + "d"), nil}
+		return o
 	case 18:
 		// member names made of the two RFC 6901 metacharacters: every decoding order slip lands on a sibling
 		return jObj().with("~1", n(0)).with("/", n(1)).with("~0", n(2)).with("~", jObj().with("/0", n(3)).with("~1", n(4)))
